@@ -138,8 +138,18 @@ impl Runner {
                     return None;
                 }
                 let side = if size > 0 { "sell" } else { "buy" };
+                // optional slippage limit: the vAMM's own quote for this order plus an offset
+                let limit = match op["lim_off"].as_i64() {
+                    Some(off) => {
+                        let dir = if side == "buy" { "add" } else { "rem" };
+                        let q3 = self.w.build_query(&v, "input_amount", &json!({"dir": dir, "amount": n})).ok()?;
+                        let r3 = self.w.query_raw(&v, &q3).ok()?;
+                        (crate::world::num(&r3) + off).max(0)
+                    }
+                    None => 0,
+                };
                 Some(json!({"k": "tx", "c": "engine", "m": "open_position", "s": t,
-                    "a": {"vamm": v, "side": side, "margin": n, "leverage": 100, "limit": 0},
+                    "a": {"vamm": v, "side": side, "margin": n, "leverage": 100, "limit": limit},
                     "funds": op["funds"].as_i64().unwrap_or(0)}))
             }
             "open_lim" => {
@@ -159,6 +169,16 @@ impl Runner {
                     "a": {"vamm": v, "side": side, "margin": margin, "leverage": lev, "limit": limit},
                     "funds": op["funds"].as_i64().unwrap_or(0)}))
             }
+            "withdraw_rel" => {
+                // a WithdrawMargin of the trader's free collateral (as the engine reports it) plus an offset
+                let v = op["v"].as_str().unwrap_or("vamm1").to_string();
+                let t = op["s"].as_str().unwrap_or("tr1").to_string();
+                let q = self.w.build_query("engine", "free_collateral", &json!({"vamm": v, "trader": t})).ok()?;
+                let res = self.w.query_raw("engine", &q).ok()?;
+                let res = self.w.rec.borrow().norm(&res);
+                let amt = (crate::world::num(&res) + op["off"].as_i64().unwrap_or(0)).max(1);
+                Some(json!({"k": "tx", "c": "engine", "m": "withdraw_margin", "s": t, "a": {"vamm": v, "amount": amt}}))
+            }
             "oracle_rel" => {
                 let v = op["v"].as_str().unwrap_or("vamm1").to_string();
                 let interval = op["interval"].as_i64().unwrap_or(3600);
@@ -176,7 +196,7 @@ impl Runner {
     /// execute one op; returns (ok, fault_fired)
     pub fn op(&mut self, op: &Value) -> (bool, bool) {
         let k = op["k"].as_str().unwrap_or("tx");
-        if k == "flatten" || k == "oracle_rel" || k == "open_lim" {
+        if k == "flatten" || k == "oracle_rel" || k == "open_lim" || k == "withdraw_rel" {
             return match self.resolve(op) {
                 Some(o) => self.op(&o),
                 None => (false, false),
